@@ -12,6 +12,11 @@ Quantifiers: every state reachable by any history, every configuration, every fa
 (decode, unknown module, provision, validate, start of the k-th app, bind of the k-th listener,
 post-start), every map order `pp`/`ps`, every set of blocked addresses — no bound on anything.
 
+The model's provisionContext rolls back on EVERY error outcome; that this is what the Go
+function does (its deferred rollback reads the function-level `err`, and every error-reporting
+return leaves it non-nil) is the regenerated fact `provision_rollback_sees_every_error`
+(GenTie.lean, rebuilt from /repo's source on every run).
+
 `changeTo c e s` is the tail of changeConfig once the raw tree has been mutated to `c`
 (load, or the result of a partial change); `step` wraps it for every operation kind.
 All clauses hold at full strength since the HTTP app's Start releases what it bound when it
@@ -20,6 +25,7 @@ statement in Witness.lean (`load_atomic_old_code_fails`).
 -/
 import CaddyModel.C01.Witness
 import CaddyModel.C03.LemmasP
+import CaddyModel.C01.GenTie
 
 namespace CaddyModel.C01
 open CaddyModel.Lifecycle
@@ -137,20 +143,14 @@ theorem default_storage_untouched_before_run (s : State) (c : Cfg) (e : Env) (h 
       unfold decodeAndRun
       simp [h1]
 
-/-- **rejected ⇒ default storage untouched, PARTIAL** (the full statement is refuted in
-    Witness.lean: `default_storage_full_fails`, finding F21). For an attempt that is rejected after
-    run() was entered, over a configuration that is current: if it is rejected while
-    provisionContext is still at work (logging, storage module, any app or guest module) the
-    default storage is put back to the current configuration's; if it is rejected after
-    provisionContext succeeded (admin routers, Start, post-start) it is LEFT at the rejected
-    configuration's storage. (Excluded altogether: no configuration is current — then nothing is
-    restored, witness (a).) -/
-theorem default_storage_partial (s : State) (c : Cfg) (e : Env) (cur : Ctx) (hc : s.cur = some cur)
+/-- **default_storage_after_rejected** (full strength, since fix e4caa40). Every attempt that is
+    rejected after run() was entered — in provisionContext (logging, storage module, any app or
+    guest module), while provisioning the admin routers, at Start, or in the post-start step —
+    leaves the process-wide default storage at the storage of the configuration that is current,
+    or at caddy's DefaultStorage if none is. -/
+theorem default_storage_after_rejected (s : State) (c : Cfg) (e : Env)
     (hr : (changeTo c e s).2.accepted = false) (ht1 : c.top ≠ 1) (ht2 : c.top ≠ 2) :
-    ((∃ r0, (provisionContext s.next c e.pp { s with raw := some c }).2.2 = some r0) →
-      (changeTo c e s).1.dstor = cur.stor) ∧
-    ((provisionContext s.next c e.pp { s with raw := some c }).2.2 = none →
-      (changeTo c e s).1.dstor = c.stor.key) := by
+    (changeTo c e s).1.dstor = storOf s.cur := by
   have hd := run_dstor s.next c e { s with raw := some c }
   unfold changeTo at hr ⊢
   split at hr
@@ -166,11 +166,14 @@ theorem default_storage_partial (s : State) (c : Cfg) (e : Env) (cur : Ctx) (hc 
     · subst hres
       obtain ⟨ctx, rfl, _⟩ := run_ok hrun
       simp [Res.accepted] at hr
-    · have goal : ((∃ r0, (provisionContext s.next c e.pp { s with raw := some c }).2.2 = some r0) →
-            s'.dstor = cur.stor) ∧
-          ((provisionContext s.next c e.pp { s with raw := some c }).2.2 = none → s'.dstor = c.stor.key) :=
-        ⟨fun ⟨r0, h0⟩ => hd.2.2 r0 cur h0 hc, fun hn => hd.2.1 hn hres⟩
+    · have goal : s'.dstor = storOf s.cur := hd.2 hres
       cases o <;> cases res <;> first | exact absurd rfl hres | exact goal
+
+/-- **Validate leaves the default storage alone** (full strength): after a dry run, successful or
+    not, it is the current configuration's storage (caddy's DefaultStorage if none is current) -/
+theorem default_storage_after_validate (s : State) (c : Cfg) (e : Env) :
+    (validate c e s).1.dstor = storOf s.cur :=
+  validate_dstor c e s
 
 /-! ### every history -/
 
@@ -236,7 +239,7 @@ example : (changeTo ⟨0, [], [⟨0, 5, 0, [2], [⟨0, 1⟩, ⟨0, 2⟩]⟩, ⟨
     (changeTo ⟨0, [], [⟨0, 5, 0, [2], [⟨0, 1⟩, ⟨0, 2⟩]⟩, ⟨1, 6, 4, [], []⟩], ⟨0, 0⟩⟩ exEnv exState).1.mpool 1 = 0 ∧
     exState.mpool 0 = 1 := by decide
 -- default storage: accepted (storage module 2) sets it; rejected while provisioning an app puts it
--- back to the running config's (0); rejected at Start leaves the rejected config's (1)
+-- back to the running config's (0); so does a rejection at Start, and a successful Validate
 example : (changeTo ⟨0, [], [⟨0, 5, 0, [2], []⟩], ⟨0, 2⟩⟩ exEnv exState).2 = .ok ∧
     (changeTo ⟨0, [], [⟨0, 5, 0, [2], []⟩], ⟨0, 2⟩⟩ exEnv exState).1.dstor = 2 := by decide
 example : exState.cur.map (·.stor) = some 0 ∧
@@ -244,8 +247,9 @@ example : exState.cur.map (·.stor) = some 0 ∧
     (provisionContext exState.next ⟨0, [], [⟨0, 5, 4, [2], []⟩], ⟨0, 1⟩⟩ exEnv.pp { exState with raw := some ⟨0, [], [⟨0, 5, 4, [2], []⟩], ⟨0, 1⟩⟩ }).2.2 = some .errValidate ∧
     (changeTo ⟨0, [], [⟨0, 5, 4, [2], []⟩], ⟨0, 1⟩⟩ exEnv exState).1.dstor = 0 := by decide
 example : (changeTo ⟨0, [], [⟨0, 5, 5, [2], []⟩], ⟨0, 1⟩⟩ exEnv exState).2 = .errStart ∧
-    (provisionContext exState.next ⟨0, [], [⟨0, 5, 5, [2], []⟩], ⟨0, 1⟩⟩ exEnv.pp { exState with raw := some ⟨0, [], [⟨0, 5, 5, [2], []⟩], ⟨0, 1⟩⟩ }).2.2 = none ∧
-    (changeTo ⟨0, [], [⟨0, 5, 5, [2], []⟩], ⟨0, 1⟩⟩ exEnv exState).1.dstor = 1 := by decide
+    (changeTo ⟨0, [], [⟨0, 5, 5, [2], []⟩], ⟨0, 1⟩⟩ exEnv exState).1.dstor = 0 ∧
+    (validate ⟨0, [], [⟨0, 5, 0, [2], []⟩], ⟨0, 2⟩⟩ exEnv exState).2 = .ok ∧
+    (validate ⟨0, [], [⟨0, 5, 0, [2], []⟩], ⟨0, 2⟩⟩ exEnv exState).1.dstor = 0 := by decide
 example : (changeTo ⟨2, [], [], ⟨0, 1⟩⟩ exEnv exState).2 = .errIndex := by decide
 -- "unchanged"
 example : (changeTo exOld ⟨false, false, 0, [], [], []⟩ exState).2 = .same := by decide
